@@ -379,7 +379,22 @@ def r10(ctx):
             ctx.inst(R, f"{root.id}:parked-datagram-holds-slot", ok, s["s"], "the parked datagram keeps its queue slot occupied" if ok else
                      f"`{root.id}` moves a datagram out of the bounded receive queue into Rx::buffer without reserving its slot: while a datagram is parked "
                      "the queue accepts one more, so the socket holds udp_capacity + 1 datagrams")
-    ctx.floor(R, 1)
+        # the converse: whoever takes the parked datagram gives its slot back there and then (on the `Some` path, in the same function) -
+        # a slot released later (at the next readable() / recv_from()) leaves an idle socket with udp_capacity - 1 free slots
+        SLOT = "turmoil::net::udp::Rx::buffer_slot"
+        for bb, t in b.calls(re.compile(r"^std::option::Option::take$")):
+            if not t["args"] or not _on_field(b, t["args"][0], BUF):
+                continue
+            n += 1
+            some = [m["Some"] for sbb, m, els, adt, pl in variant_edges(b, lambda p: True) if adt == "std::option::Option" and "Some" in m and
+                    origin(b, {"c": {"l": pl["l"]}}).get("bb") == bb]
+            rel = [x for x, i2, s2 in b.all_stmts() if i2 != "term" and place_last_field(s2["p"]) == SLOT]
+            rel += [x for x, t2 in b.calls(re.compile(r"^std::option::Option::take$|^std::mem::(drop|take)$")) if t2["args"] and _on_field(b, t2["args"][0], SLOT)]
+            ok = bool(some) and bool(rel) and not always_passes(b, rel, frm=some[0][1])
+            ctx.inst(R, f"{b.id}:taken-datagram-frees-slot", ok, t["s"], "consuming the parked datagram releases its queue slot on the spot" if ok else
+                     f"`{b.id}` takes the parked datagram out of Rx::buffer but has a path that returns without releasing Rx::buffer_slot: the slot stays reserved until some later "
+                     "call, and in the meantime the socket accepts only udp_capacity - 1 datagrams (with capacity 1: none) - datagrams within the capacity are dropped as `Full buffer`")
+    ctx.floor(R, 2)
 
 
 def r11(ctx):
@@ -528,7 +543,34 @@ def r13(ctx):
     ctx.floor(R, 1)
 
 
+def r14(ctx):
+    R = "C09-R14"
+    ctx.rule(R, "a connected socket receives from the peer it was *last* connected to: Udp::connect overwrites UdpBind::target_addr with Some(dst) on "
+                "every path that returns Ok - an assignment from the argument, not a get_or_insert / or_insert that keeps an earlier peer")
+    uc = ctx.body(R, "turmoil::host::Udp::connect")
+    if not uc:
+        return
+    TA = "turmoil::host::UdpBind::target_addr"
+    wr = []
+    for fb in ctx.w.family(uc.id):
+        for bb, i, s2 in fb.all_stmts():
+            if i != "term" and place_last_field(s2["p"]) == TA and s2["r"]["k"] in ("agg", "use"):
+                at = set()
+                for o in _ops(s2["r"]):
+                    at |= Slicer(ctx.w).atoms(fb, o)
+                if any(a.startswith("arg:") for a in at):
+                    wr.append(s2["s"])
+    keep = [t["f"].rsplit("::", 1)[1] for fb in ctx.w.family(uc.id) for bb, t in fb.calls(re.compile(r"^std::option::Option::(get_or_insert|get_or_insert_with|or|or_else|insert)$")) if t["args"] and _on_field(fb, t["args"][0], TA)]
+    keep = [k for k in keep if k != "insert"]
+    ok = bool(wr) and not keep
+    ctx.inst(R, "connect:replaces-peer", ok, uc.span, "connect stores the new peer unconditionally" if ok else
+             f"Udp::connect does not overwrite the stored peer ({keep or 'no assignment of Some(dst) to UdpBind::target_addr'}): after connect(A); connect(B) the socket still "
+             "filters on A - datagrams from B, the connected peer, are dropped and datagrams from A are still delivered")
+    ctx.floor(R, 1)
+
+
 def run(ctx):
+    r14(ctx)
     r13(ctx)
     r12(ctx)
     r11(ctx)
